@@ -271,6 +271,21 @@ func Verif_C16_Decorate() {
 		verifCheckEvents(c, names[:nInt], handlerRuns, "U", target)
 		zv.Assert(res == wantRes, "result-is-what-the-chain-yields")
 		zv.Assert(err == wantErr, "error-is-what-the-chain-yields")
+		// a second dispatch of the same decorated method with ANOTHER transport
+		// interceptor must go through that one (nothing may be cached per method)
+		if hasT {
+			c.events = nil
+			ti2 := c.unaryInt("transport2", tB, wantMethod)
+			res2, err2 := md.Handler(c.srv, c.ctx, func(interface{}) error { return nil }, ti2)
+			names2 := append([]string{"transport2"}, names[1:]...)
+			verifCheckEvents(c, names2[:nInt], handlerRuns, "U", target)
+			zv.Assert(res2 == wantRes && err2 == wantErr, "second-dispatch-yields-the-same-result")
+		}
+		// the original description still dispatches to the bare handler
+		c.events = nil
+		_, errO := orig.Methods[target].Handler(c.srv, c.ctx, func(interface{}) error { return nil }, nil)
+		verifCheckEvents(c, nil, true, "U", target)
+		zv.Assert(errO == c.herr, "original-description-still-runs-only-the-handler")
 	} else {
 		si := target - nU
 		sd := desc.Streams[si]
@@ -287,6 +302,11 @@ func Verif_C16_Decorate() {
 		wantErr, handlerRuns, nInt := c.simStream(behaviours)
 		verifCheckEvents(c, names[:nInt], handlerRuns, "S", si)
 		zv.Assert(err == wantErr, "error-is-what-the-chain-yields")
+		// the original description still dispatches to the bare handler
+		c.events = nil
+		errO := orig.Streams[si].Handler(c.srv, c.stream)
+		verifCheckEvents(c, nil, true, "S", si)
+		zv.Assert(errO == c.herr, "original-description-still-runs-only-the-handler")
 	}
 }
 
